@@ -22,6 +22,7 @@ EXPLANATION = (
     "excepted), directory listings reach output only through sorted(), and no clock/random/id()/hash() call is "
     "reachable from a per-file scan; R07g the name of a temporary file never flows into a presentation sink, an "
     "error message or the scan context (the display name travels separately); R07h (=R13b) every rule's per-file state is reset on every path of starting_new_file, so a scan prints the same thing whatever was scanned before it in the process. "
+    "R07m (a contradiction rule, one clause of 'no internal failure') a length test that guards a constant index in the same conjunction admits no length for which that index is out of range; "
     "R07i no run-time text is ever used as a str.format / % template (a brace in document text would raise inside the reporter or rewrite the line); R07j may-be-None dataflow (as R01d) over every rule and the plugin manager: no unguarded dereference of a parameter / local that may be None. R07k in the reporting API the line and the column handed on are read from the same token and field pair on every path; R07l a rule reports at the token it was just handed, without computing a position of its own, only where the path has established the kind of token (or excluded the end of the stream, whose position is one line past the end, column 0). Not decided: that reported columns are in range in general, that reports are unique per (line, column, rule), and that a "
     "rule's own code raises no exception — those depend on run-time values."
 )
@@ -867,6 +868,70 @@ def r07l(ctx: Context) -> None:
                     rule.fail(key, where(method, node), f"{method.short} reports at '{token.id}' on a path that has not established what kind of token it is and has not excluded the end of the stream: for a document in which this path is reached by the end-of-stream token (an empty or blank-only file, ...) the failure is printed at the line after the last line, column 0 - a position that does not exist")
 
 
+def _walk_unconditional(node: ast.AST):
+    """Sub-expressions evaluated whenever ``node`` is: nested and/or, conditional expressions, lambdas and
+    comprehensions are not entered (they carry guards of their own)."""
+    yield node
+    for child in ast.iter_child_nodes(node):
+        if isinstance(child, (ast.BoolOp, ast.IfExp, ast.Lambda, ast.ListComp, ast.SetComp, ast.DictComp, ast.GeneratorExp)):
+            continue
+        yield from _walk_unconditional(child)
+
+
+def length_guard_admits_index(ctx: Context, rule_id: str = "R07m") -> None:
+    """A contradiction rule.  In one conjunction 'len(x) >= n and ... x[k] ...' the length test is there to make the
+    index safe; when the lengths it admits (together with what startswith/endswith of a literal imply) include one for
+    which x[k] does not exist, the rule (or the manager) raises IndexError on exactly the input the guard was written
+    for: the file's scan is aborted and the other rules' reports are lost."""
+    prog = ctx.prog
+    rule = ctx.rule(rule_id, "a length test guarding a constant index in the same conjunction admits no length for which the index is out of range", 3)
+
+    def length_bound(operand: ast.AST) -> Optional[Tuple[str, int]]:
+        if isinstance(operand, ast.Compare) and len(operand.ops) == 1 and isinstance(operand.left, ast.Call) and dotted(operand.left.func) == "len" and operand.left.args:
+            right = operand.comparators[0]
+            if isinstance(right, ast.Constant) and isinstance(right.value, int) and not isinstance(right.value, bool):
+                if isinstance(operand.ops[0], ast.GtE):
+                    return norm(operand.left.args[0]), right.value
+                if isinstance(operand.ops[0], ast.Gt):
+                    return norm(operand.left.args[0]), right.value + 1
+                if isinstance(operand.ops[0], ast.Eq):
+                    return norm(operand.left.args[0]), right.value
+        if isinstance(operand, ast.Call) and isinstance(operand.func, ast.Attribute) and operand.func.attr in ("startswith", "endswith") and operand.args:
+            if isinstance(operand.args[0], ast.Constant) and isinstance(operand.args[0].value, str):
+                return norm(operand.func.value), len(operand.args[0].value)
+        return None
+
+    for func in prog.iter_functions("pymarkdown."):
+        for node in walk_local(func.node):
+            if not (isinstance(node, ast.BoolOp) and isinstance(node.op, ast.And)):
+                continue
+            explicit: Dict[str, int] = {}
+            known: Dict[str, int] = {}
+            for operand in node.values:
+                for sub in ([] if isinstance(operand, (ast.BoolOp, ast.IfExp)) else _walk_unconditional(operand)):
+                    if isinstance(sub, ast.Subscript) and isinstance(sub.ctx, ast.Load):
+                        index = sub.slice
+                        if isinstance(index, ast.UnaryOp) and isinstance(index.op, ast.USub) and isinstance(index.operand, ast.Constant) and isinstance(index.operand.value, int):
+                            need = index.operand.value
+                        elif isinstance(index, ast.Constant) and isinstance(index.value, int) and not isinstance(index.value, bool):
+                            need = index.value + 1
+                        else:
+                            continue
+                        name = norm(sub.value)
+                        if name not in explicit:
+                            continue
+                        key = f"{func.rel}:{func.short}: {norm(sub)[:60]}"
+                        if known[name] >= need:
+                            rule.ok(key, f"guarded: length >= {known[name]}")
+                        else:
+                            rule.fail(key, where(func, sub), f"'{norm(sub)[:60]}' needs at least {need} element(s), and the conjunction it stands in lets it be evaluated when len({name}) is {known[name]} ('{norm(node)[:120]}'): IndexError inside a callback aborts the file's scan, so every other rule's reports for that file are lost")
+                bound = length_bound(operand)
+                if bound is not None:
+                    if isinstance(operand, ast.Compare):
+                        explicit[bound[0]] = max(explicit.get(bound[0], 0), bound[1])
+                    known[bound[0]] = max(known.get(bound[0], 0), bound[1])
+
+
 def run(ctx: Context) -> None:
     common.callbacks_contained(ctx, "R07a")
     common.callbacks_only_from_manager(ctx, "R07b")
@@ -877,6 +942,7 @@ def run(ctx: Context) -> None:
     r07i(ctx)
     r07k(ctx)
     r07l(ctx)
+    length_guard_admits_index(ctx)
     common.optional_dereferences(
         ctx, "R07j", "no parameter or local of a rule or of the plugin manager that may be None is dereferenced unguarded on any path",
         lambda rel: rel.startswith(("pymarkdown/plugins/", "pymarkdown/plugin_manager/")), 100,
